@@ -19,7 +19,7 @@ from .refmodel import Topo
 
 GROUPS = {"g": None, "g2": None, "h": "g"}
 PLACES = [None, "g", "g2", "h"]
-SIDS = ["A", "B", "C"]
+SIDS = ["A", "B", "C", "D"]
 
 
 def _cd(a, b):
@@ -52,7 +52,7 @@ def graphs(n, k, with_async=False):
                 kinds = ["p", "s"]
                 if _cd(PLACES[place[a]], PLACES[place[b]]) >= 2:
                     kinds.append("w")
-                if with_async and a != b:
+                if with_async:              # (also between two entities of ONE simulator)
                     kinds += ["a", "as"]        # async with a plain / a time-shifted data flow
                     if "w" in kinds:
                         kinds.append("aw")
@@ -74,6 +74,22 @@ def graphs(n, k, with_async=False):
                     continue
                 seen.add(key)
                 yield place, cs
+
+
+def motif4():
+    """two groups with two simulators each: in each group a loop closed by a weak connection plus
+    a parallel plain back edge, the groups coupled into a ring; every edge varied over its kinds;
+    groups placed as siblings, nested, and identical"""
+    base = [(0, 1), (1, 0), (2, 3), (3, 2), (1, 2), (3, 0)]
+    for place in ((1, 1, 2, 2), (1, 1, 3, 3), (1, 1, 1, 1), (3, 3, 1, 1)):
+        opts = []
+        for (a, b) in base:
+            kinds = ["p", "s"]
+            if _cd(PLACES[place[a]], PLACES[place[b]]) >= 2:
+                kinds.append("w")
+            opts.append([(a, b, k) for k in kinds])
+        for cs in itertools.product(*opts):
+            yield place, cs
 
 
 def to_scen(n, place, cs):
@@ -215,6 +231,10 @@ def check(prop, tier):
         counts[f"n={n},k<={k}{',async' if wa else ''}"] = len(gs)
         for i in range(0, len(gs), 200):
             jobs.append((n, gs[i:i + 200]))
+    gs = list(motif4())
+    counts["motif4 (2+2 simulators, 6 connections)"] = len(gs)
+    for i in range(0, len(gs), 200):
+        jobs.append((4, gs[i:i + 200]))
     rep = findings.Reporter("C06")
     total = cyc_n = 0
     kinds = {}
